@@ -109,3 +109,18 @@ PREDICATES.update({
     "prints_defaultdict": prints_defaultdict, "duplicate_dict_key": duplicate_dict_key, "symbolic_range_sum": symbolic_range_sum,
     "double_zip_star": double_zip_star, "zip_underscore": zip_underscore, "boolop_constant_operand": boolop_constant_operand,
 })
+
+
+def rebinds_builtin(case):
+    """F-C01-38: the module defines or assigns a name of a builtin (def len(..), len = ..) and calls it on constants."""
+    import builtins
+    try:
+        tree = ast.parse(_src(case))
+    except SyntaxError:
+        return False
+    bound = {n.name for n in ast.walk(tree) if isinstance(n, (ast.FunctionDef, ast.AsyncFunctionDef, ast.ClassDef))}
+    bound |= {n.id for n in ast.walk(tree) if isinstance(n, ast.Name) and isinstance(n.ctx, ast.Store)}
+    return any(hasattr(builtins, name) for name in bound)
+
+
+PREDICATES["rebinds_builtin"] = rebinds_builtin
